@@ -126,8 +126,8 @@ def run_c01(ctx):
             for d in batch[:3]:
                 ctx.sample({'op': 'pv', 'cfg': cfg, 'input_hex': hx(d)})
         # entry points: the same verdict from &str and reader input on a sample
-        sample = [d for d in itertools.islice(space_inputs(ctx), 0, 3000000, 23)] + gen.escape_docs()
-        ctx.violations += judge_c01(ctx, cfg, gen.escape_docs())
+        sample = [d for d in itertools.islice(space_inputs(ctx), 0, 3000000, 23)] + gen.escape_docs() + gen.hex_position_docs()
+        ctx.violations += judge_c01(ctx, cfg, gen.escape_docs() + gen.hex_position_docs())
         ctx.violations += judge_sources(ctx, cfg, sample, ops=('pv',), srcs=['s', 'b', 'r1', 'rx5'], what_prefix='c01-')
         # depth clause: 127 levels accepted, 128 rejected, for every bracket mix
         ctx.violations += judge_depth(ctx, cfg)
@@ -420,7 +420,7 @@ def run_c09(ctx):
             ctx.violations += judge_c09(ctx, cfg, batch)
             for d in batch[:3]:
                 ctx.sample({'ops': 'pv/pi/pr x sources', 'cfg': cfg, 'input_hex': hx(d)})
-        ctx.violations += judge_c09(ctx, cfg, gen.depth_docs(ctx.rng) + gen.escape_docs() + gen.number_literals(ctx.rng, 300))
+        ctx.violations += judge_c09(ctx, cfg, gen.depth_docs(ctx.rng) + gen.escape_docs() + gen.hex_position_docs() + gen.number_literals(ctx.rng, 300))
         streams = list(stream_inputs(ctx, 4000 if ctx.tier == 'quick' else 40000))
         ctx.violations += judge_stream_sources(ctx, cfg, streams)
         ctx.violations += judge_pos(ctx, cfg, 20000 if ctx.tier == 'quick' else 300000)
